@@ -1,6 +1,6 @@
 //! irq <imr0> <timer_en> <mti> <sti> <mainhex> <handlerhex> <nsteps> <events>: the scenario of harness/py/irq_cmd.py on CoreRuntime.
 use sc62015_core::llama::opcodes::RegName;
-use sc62015_core::{CoreRuntime, TimerContext};
+use sc62015_core::{CoreRuntime, KeyboardMatrix, TimerContext};
 
 const MAIN: u32 = 0xC1000;
 const HANDLER: u32 = 0xC2000;
@@ -44,6 +44,17 @@ pub fn run(w: &[&str]) -> String {
         for (ek, kind) in &events {
             if *ek == k && kind == "onk" {
                 rt.press_on_key();
+            } else if *ek == k {
+                let (press, name) = if let Some(n) = kind.strip_prefix("key") { (true, n) } else if let Some(n) = kind.strip_prefix("rel") { (false, n) } else { (true, "") };
+                if let Some(code) = KeyboardMatrix::matrix_code_for_key_name(name) {
+                    if let Some(kb) = rt.keyboard.as_mut() {
+                        if press {
+                            kb.press_matrix_code(code, &mut rt.memory);
+                        } else {
+                            kb.release_matrix_code(code, &mut rt.memory);
+                        }
+                    }
+                }
             }
         }
         let s_before = rt.state.get_reg(RegName::S);
@@ -87,7 +98,7 @@ fn mk(imr0: u8, ten: bool, mti: i32, sti: i32, main: &[u8], handler: &[u8]) -> C
 
 fn obs(rt: &CoreRuntime) -> String {
     format!(
-        "{},{},{},{},{},{},{},{},{},{}",
+        "{},{},{},{},{},{},{},{},{},{},{},{}",
         rt.state.pc(),
         rt.state.get_reg(RegName::BA),
         rt.state.get_reg(RegName::I),
@@ -97,7 +108,9 @@ fn obs(rt: &CoreRuntime) -> String {
         rt.memory.read_internal_byte(0xFC).unwrap_or(0),
         rt.timer.in_interrupt as u8,
         rt.timer.irq_total,
-        (rt.state.is_halted() || rt.state.is_off()) as u8
+        (rt.state.is_halted() || rt.state.is_off()) as u8,
+        rt.keyboard.as_ref().map(|kb| kb.compute_kil(false)).unwrap_or(0),
+        rt.keyboard.as_ref().map(|kb| kb.fifo_len()).unwrap_or(0)
     )
 }
 
@@ -122,6 +135,17 @@ fn run_steps(rt: &mut CoreRuntime, events: &[(usize, String)], start: usize, n: 
         for (ek, kind) in events {
             if *ek == k && kind == "onk" {
                 rt.press_on_key();
+            } else if *ek == k {
+                let (press, name) = if let Some(n) = kind.strip_prefix("key") { (true, n) } else if let Some(n) = kind.strip_prefix("rel") { (false, n) } else { (true, "") };
+                if let Some(code) = KeyboardMatrix::matrix_code_for_key_name(name) {
+                    if let Some(kb) = rt.keyboard.as_mut() {
+                        if press {
+                            kb.press_matrix_code(code, &mut rt.memory);
+                        } else {
+                            kb.release_matrix_code(code, &mut rt.memory);
+                        }
+                    }
+                }
             }
         }
         if let Err(e) = rt.step(1) {
